@@ -107,6 +107,7 @@ PROPS = {
             plain("c16", "TestEnumDecode", shards_q=4, shards_t=12),
             rapid("c16", "TestPropRoundTrip", quick=(30000, 3), thorough=(400000, 8)),
             rapid("c16", "TestPropDecode", quick=(40000, 3), thorough=(500000, 8)),
+            fuzz("c16", "FuzzUTF7", secs=90),
         ],
     },
     "C20": {
@@ -250,6 +251,7 @@ PROPS = {
             rapid("c06", "TestPropInput", quick=(2500, 5), thorough=(40000, 12)),
             rapid("c06", "TestPropDisconnect", quick=(3, 6), thorough=(40, 14)),
             rapid("c06", "TestPropOversize", quick=(400, 4), thorough=(6000, 8)),
+            fuzz("c06", "FuzzServerBytes", secs=120, par=4),
         ],
     },
     "C17": {
